@@ -29,7 +29,9 @@ type genSet struct {
 	accepted map[string]bool // program id -> gen file written and cff reported no error for that file
 	genFile  map[string]string
 	srcFile  map[string]string
-	broken   map[string]string // program id -> compile error of its generated file
+	broken   map[string]string  // program id -> compile error of its generated file
+	written  map[string]bool    // gen file existed right after the cff run
+	perFile  map[string]*cffRun // per-file re-runs after a crash of the tool on the package
 }
 
 type cffRun struct {
@@ -143,25 +145,70 @@ func (g *genSet) runCff(cffBin string, workers int) {
 			os.Exit(2)
 		}
 	}
+	// A crash of the tool aborts the whole package: isolate it by re-running
+	// the tool on each file of that package alone.
+	g.perFile = map[string]*cffRun{}
 	for _, p := range g.progs {
-		out := g.cffOut[g.pkgOf[p.ID]]
+		pkg := g.pkgOf[p.ID]
+		o := g.cffOut[pkg]
+		if !strings.Contains(o.stderr, "panic:") && !strings.Contains(o.stderr, "goroutine ") {
+			continue
+		}
+		if _, err := os.Stat(g.genFile[p.ID]); err == nil {
+			continue
+		}
+		args := []string{"-genmode=" + g.mode}
+		if g.autoInst {
+			args = append(args, "-auto-instrument")
+		}
+		args = append(args, "-file="+filepath.Base(g.srcFile[p.ID]), "./"+pkg)
+		_, se, code := run(g.dir, goEnv, cffBin, args...)
+		g.perFile[p.ID] = &cffRun{pkg: pkg, exit: code, stderr: se}
+	}
+	g.written = map[string]bool{}
+	for _, p := range g.progs {
+		out := g.outOf(p.ID)
 		_, err := os.Stat(g.genFile[p.ID])
+		g.written[p.ID] = err == nil
 		named := strings.Contains(out.stderr, filepath.Base(g.srcFile[p.ID])+":")
 		g.accepted[p.ID] = err == nil && !named
 	}
 }
 
-var errLine = regexp.MustCompile(`(?m)^(?:\.\./|\./)?([a-z0-9_/]+\.go):(\d+):(\d+): (.*)$`)
+// outOf returns the tool run that decided the fate of program id.
+func (g *genSet) outOf(id string) *cffRun {
+	if o, ok := g.perFile[id]; ok {
+		return o
+	}
+	return g.cffOut[g.pkgOf[id]]
+}
+
+var errLine = regexp.MustCompile(`(?m)^(?:[A-Za-z0-9_./-]*/)?([a-z0-9_]+)\.go:(\d+)(?::(\d+))?: (.*)$`)
+
+// blame maps a compiler error line to the program whose generated file it is
+// about (positions may be given relative to //line directives: base names of
+// the generated or of the source file).
+func (g *genSet) blame(se string) map[string]string {
+	byBase := map[string]string{}
+	for id := range g.genFile {
+		byBase[strings.ToLower(id)] = id
+	}
+	out := map[string]string{}
+	for _, m := range errLine.FindAllStringSubmatch(se, -1) {
+		base := strings.TrimSuffix(m[1], "_gen")
+		if id, ok := byBase[base]; ok {
+			if _, dup := out[id]; !dup {
+				out[id] = fmt.Sprintf("%s.go:%s: %s", m[1], m[2], m[4])
+			}
+		}
+	}
+	return out
+}
 
 // buildDriver builds the driver; generated files that do not compile are
 // recorded in g.broken, removed, and the build is retried.
 func (g *genSet) buildDriver(overlay, out string) error {
 	g.broken = map[string]string{}
-	byGen := map[string]string{}
-	for id, f := range g.genFile {
-		rel, _ := filepath.Rel(g.dir, f)
-		byGen[rel] = id
-	}
 	for attempt := 0; attempt < 40; attempt++ {
 		args := []string{"build"}
 		if overlay != "" {
@@ -173,13 +220,11 @@ func (g *genSet) buildDriver(overlay, out string) error {
 			return nil
 		}
 		removed := 0
-		for _, m := range errLine.FindAllStringSubmatch(se, -1) {
-			if id, ok := byGen[m[1]]; ok {
-				if _, dup := g.broken[id]; !dup {
-					g.broken[id] = fmt.Sprintf("%s:%s:%s: %s", m[1], m[2], m[3], m[4])
-					os.Remove(g.genFile[id])
-					removed++
-				}
+		for id, msg := range g.blame(se) {
+			if _, dup := g.broken[id]; !dup && g.written[id] {
+				g.broken[id] = msg
+				os.Remove(g.genFile[id])
+				removed++
 			}
 		}
 		if removed == 0 {
